@@ -697,7 +697,7 @@ func dcopyBatch(cases []Case) []string {
 func init() {
 	register(&Property{ID: "C17", Streams: []*Stream{
 		{
-			Name: "graphs", Quick: 300, Thorough: 3000, New: func() Case { return &dcopyCase{} },
+			Name: "graphs", Quick: 500, Thorough: 4000, New: func() Case { return &dcopyCase{} },
 			Gen:      func(r *Rng, i int) Case { return genDcopy(r) },
 			BatchRun: dcopyBatch, ShrinkBudget: 25, MaxShrinks: 6,
 			Rule: "packages of 2–7 declarations: structs with int, []int, map[string]int, error, any, unnamed-interface, same-package named (struct / defined map / defined scalar / defined interface) and instantiated-generic fields, generic structs with bare type-parameter fields, defined maps and scalars, tagged and untagged dependencies, the gengo:deepcopy:interfaces tag; the real generator run twice (100 packages per Execute), the Go compiler after each run, and one probe program per batch that fills every enabled type twice — with allocated but empty containers, then with non-empty ones — at every depth, calls the generated DeepCopy, requires reflect.DeepEqual, mutates every slice and map reachable in the copy and compares the original with an identically filled twin; compared with the model: emitted methods in order, statement form per field, compiles or not, on both runs; oracle: compiles on both runs, identical output, nil receiver gives nil, equal, nothing shared",
